@@ -577,13 +577,15 @@ class FTPFS(FS):
         # type: (Text, bool) -> bool
         _path = self.validatepath(path)
         with ftp_errors(self, path):
-            if wipe or not self.isfile(path):
-                empty_file = io.BytesIO()
-                self.ftp.storbinary(
-                    str("STOR ") + _encode(_path, self.ftp.encoding), empty_file
-                )
-                return True
-        return False
+            if not wipe and self.exists(path):
+                return False
+            if self.isdir(path):
+                raise errors.FileExpected(path)
+            empty_file = io.BytesIO()
+            self.ftp.storbinary(
+                str("STOR ") + _encode(_path, self.ftp.encoding), empty_file
+            )
+            return True
 
     @classmethod
     def _parse_ftp_time(cls, time_text):
